@@ -2,12 +2,14 @@
 
 
 def classify(case):
-    """Two recorded classes, both about the cpu fit only (a history ends at the first request that breaks a fit):
-    (a) an accepted UpdateQuotaLimits changes the size of the effective cpu set of an already existing group whose cpu
-        quota is a bare percentage (count 0) - the effective reservation count*percentage of that group changes
-        without being validated again;
-    (b) an accepted request with a cpu quota on a group whose nearest ancestor with a cpu set or cpu quota has only a
-        cpu set: validateCPUResourceFit stops there and never looks at the cpu quota further up."""
+    """Two recorded classes, both about the cpu fit only and both about percentage-only (count 0) cpu quotas, whose
+    reservation is percentage x size of the effective cpu set (a history ends at the first request that breaks a fit):
+    (a) an accepted request changes the size of the effective cpu set of a percentage-only group without that group's
+        reservation being validated again: an UpdateQuotaLimits that changes the own or inherited set of an existing
+        group, or a NewSubGroup whose own cpu set differs in size from the inherited one the validator used;
+    (b) an accepted request leaves its target with a percentage-only quota over a cpu set with more entries than
+        runtime.NumCPU: validateCPUResourceFit sizes the request by len(set), GetLocalCPUQuota caps it at NumCPU.
+    The class `cpu-check-stops-at-cpuset-only-ancestor` was repaired in /repo (731c638): a recurrence is a VIOLATION."""
     steps = ((case.get("observed") or {}).get("steps")) or []
     broken = [s for s in steps if s.get("broken")]
     if len(broken) != 1 or broken[0] is not steps[-1]:
@@ -15,10 +17,10 @@ def classify(case):
     s = broken[0]
     if s.get("broken") != ["cpu"] or not s.get("accepted"):
         return None
-    if s.get("kind") == "upd" and s.get("effset_changed_for_count0"):
+    if s.get("kind") in ("upd", "sub") and s.get("effset_changed_for_count0"):
         return "cpuset-change-over-count0-group"
-    if s.get("kind") in ("sub", "upd") and s.get("stops_at_set_only_ancestor"):
-        return "cpu-check-stops-at-cpuset-only-ancestor"
+    if s.get("kind") in ("upd", "sub", "new") and s.get("count0_set_larger_than_numcpu"):
+        return "cpu-percentage-only-sized-beyond-numcpu"
     return None
 
 
